@@ -115,6 +115,8 @@ pub trait Subject<V: Val> {
     fn put(&self, k: &str, v: V);
     fn snap(&self) -> Snap;
     fn reset(&self);
+    /// `GlobalCache::clear` (the only engine with a public clear)
+    fn clear(&self) {}
 }
 
 struct GlobalSubj<V: Val> {
@@ -157,6 +159,9 @@ impl<V: Val> Subject<V> for GlobalSubj<V> {
         self.st.g_map.write().clear();
         self.st.g_order.lock().clear();
         self.st.g_stats.reset();
+    }
+    fn clear(&self) {
+        self.c.clear()
     }
 }
 
